@@ -33,6 +33,7 @@ func devMain(args []string) {
 	only := fs.String("func", "", "only functions whose name contains this")
 	timeout := fs.Int("timeout", 10, "solver timeout (s)")
 	verbose := fs.Bool("v", false, "verbose")
+	nosolve := fs.Bool("nosolve", false, "generate obligations only")
 	showWrites := fs.String("writes", "", "print the inferred write set of functions whose name contains this")
 	fs.Parse(args)
 	_ = pkgs
@@ -120,6 +121,10 @@ func devMain(args []string) {
 			if rep.Error != "" {
 				fmt.Printf("!! %s: %s\n", rep.Func, rep.Error)
 				failed++
+				continue
+			}
+			if *nosolve {
+				fmt.Printf("%s: %d paths, %d obligations generated in %.2fs\n", rep.Func, rep.Paths, len(rep.Obligations), rep.Seconds)
 				continue
 			}
 			eng.SolveAll(rep.Obligations, axioms)
